@@ -118,6 +118,42 @@ pub const TOK: &[&str] = &[
     "prose\n",
 ];
 
+/// second alphabet: a minimal skeleton plus exotic spellings (quoting, escapes, CRLF, trailing blanks, odd headers)
+pub const TOKB: &[&str] = &[
+    "--- a/f\n",
+    "+++ b/f\n",
+    "@@ -1 +1 @@\n",
+    "-a\n",
+    "+b\n",
+    " c\n",
+    "--- \"a/f\\ng\"\n",
+    "+++ \"b/f\\\"g\\\\\"\n",
+    "--- \"a/\\303\\251\"\n",
+    "diff --git \"a/f g\" \"b/f g\"\n",
+    "--- a/f\t(revision 1)\n",
+    "+++ b/f   \n",
+    "--- a/f\r\n",
+    "+++ b/f\r\n",
+    " c\r\n",
+    "+b\r\n",
+    "--- \n",
+    "+++ \n",
+    "--- a/f b/f\n",
+    "@@ -1 +1,0 @@\n",
+    "@@ -1,1 +1,1 @@ \n",
+    "@@@ -1 -1 +1 @@@\n",
+    "Binary files a/f and b/f differ\n",
+    "similarity index 100%\n",
+    "rename from \"f g\"\n",
+    "rename to \"g h\"\n",
+    "diff --git a/f b/f\n",
+    "index 1a..2b 100755\n",
+    "index 1a,2b..3c\n",
+    "old mode 100644 \n",
+    "new mode 0100755\n",
+    "\\ No newline\n",
+];
+
 pub const GRID: &[&str] = &[
     "0", "1", "2", "2147483647", "2147483648", "4294967295", "4294967296", "9223372036854775807", "9223372036854775808", "18446744073709551615", "18446744073709551616",
     "1000000000000000000000000000000",
@@ -134,6 +170,7 @@ const SKELETONS: &[&[&str]] = &[
 #[derive(Clone, Copy, Debug, PartialEq)]
 pub enum Space {
     Seq(usize),
+    SeqB(usize),
     Grid,
     Edits,
 }
@@ -143,6 +180,8 @@ pub fn space_of(s: &str) -> Space {
         Space::Grid
     } else if s == "edits" {
         Space::Edits
+    } else if s.starts_with("seqb") {
+        Space::SeqB(s.trim_start_matches("seqb").parse().unwrap())
     } else {
         Space::Seq(s.trim_start_matches("seq").parse().unwrap())
     }
@@ -157,6 +196,10 @@ pub fn space_size(sp: Space) -> usize {
     match sp {
         Space::Seq(l) => {
             let t = TOK.len();
+            (1..=l).map(|k| t.pow(k as u32) * 2).sum()
+        }
+        Space::SeqB(l) => {
+            let t = TOKB.len();
             (1..=l).map(|k| t.pow(k as u32) * 2).sum()
         }
         Space::Grid => GRID.len().pow(4) * 3,
@@ -187,20 +230,21 @@ fn apply_edit(v: &mut Vec<&'static str>, sk_len: usize, e: usize) {
 /// the input bytes of case `idx` of space `sp`
 pub fn input_of(sp: Space, mut idx: usize) -> Vec<u8> {
     match sp {
-        Space::Seq(l) => {
-            let t = TOK.len();
+        Space::Seq(l) | Space::SeqB(l) => {
+            let toks: &[&str] = if let Space::SeqB(_) = sp { TOKB } else { TOK };
+            let t = toks.len();
             for k in 1..=l {
                 let n = t.pow(k as u32) * 2;
                 if idx < n {
                     let trunc = idx % 2 == 1;
                     let mut d = idx / 2;
-                    let mut toks = vec![];
+                    let mut toks_idx = vec![];
                     for _ in 0..k {
-                        toks.push(d % t);
+                        toks_idx.push(d % t);
                         d /= t;
                     }
-                    toks.reverse();
-                    let mut out: Vec<u8> = toks.iter().flat_map(|&i| TOK[i].as_bytes().to_vec()).collect();
+                    toks_idx.reverse();
+                    let mut out: Vec<u8> = toks_idx.iter().flat_map(|&i| toks[i].as_bytes().to_vec()).collect();
                     if trunc {
                         out.pop();
                     }
@@ -408,7 +452,7 @@ pub fn run(args: &[String]) {
     let edits = args.get(2).map(|s| s == "1").unwrap_or(true);
     let horizon = Duration::from_millis(std::env::var("RQMC_CASE_MS").ok().and_then(|s| s.parse().ok()).unwrap_or(2000));
     let max_restarts: usize = std::env::var("RQMC_MAX_RESTARTS").ok().and_then(|s| s.parse().ok()).unwrap_or(12);
-    let mut spaces: Vec<(String, Space)> = vec![(format!("seq{}", l), Space::Seq(l))];
+    let mut spaces: Vec<(String, Space)> = vec![(format!("seq{}", l), Space::Seq(l)), (format!("seqb{}", l), Space::SeqB(l))];
     if grid {
         spaces.push(("grid".into(), Space::Grid));
     }
@@ -549,6 +593,7 @@ pub fn run(args: &[String]) {
         ("report", rep.to_json(vec![])),
         ("spaces", J::A(sizes)),
         ("tokens", J::u(TOK.len() as u64)),
+        ("tokens_b", J::u(TOKB.len() as u64)),
         ("wall_s", J::F(t0.elapsed().as_secs_f64())),
     ]);
     println!("{}", out.to_string());
